@@ -99,7 +99,7 @@ func main() {
 			ncase = *vlib.FlagN
 		}
 		for i := 0; i < ncase; i++ {
-			c := cfg{Net: []string{"udp", "udp6"}[i%2], Loops: []int{1, 4, 2}[i%3], RCap: []int{65536, 8192, 2048, 65536}[i%4], WCap: 65536, ReusePort: true}
+			c := cfg{Net: []string{"udp", "udp6"}[i%2], Loops: []int{1, 4, 2}[i%3], RCap: []int{65536, 8192, 2048, 65536, 3000, 50000, 65507, 1025}[i%8], WCap: 65536, ReusePort: true}
 			if i%4 == 3 {
 				if ip, zone := linkLocal(); ip != nil {
 					c.LinkLocal = ip.String() + "%" + zone
